@@ -261,6 +261,9 @@ class BodyMixin:
 
     @cache_in('environ[ ombott.request.body ]', read_only=True)
     def _body(self):
+        err = self.environ.get('ombott.request.body.error')
+        if err is not None:  # the stream is spent: a failed read stays failed for this request
+            self._raise(err, RequestError)
         markup = None
         mp = MULTIPART_BOUNDARY_PATT.match(self.environ.get('CONTENT_TYPE', ''))
         if mp is not None:
@@ -279,6 +282,7 @@ class BodyMixin:
             )
             body.ombott_markup = markup
         except RequestError as err:
+            self.environ['ombott.request.body.error'] = err.with_traceback(None)
             self._raise(err, RequestError)
         self.environ['wsgi.input'] = body
         body.seek(0)
